@@ -81,3 +81,12 @@ Section FakePath.
       apply is_prefix_spec in E. destruct E as [r Hr]. exfalso. apply (H r). auto.
   Qed.
 End FakePath.
+
+From Coq Require Import NArith.
+Theorem printed_member_spec : forall binary tmpdir filename member,
+  printed_member binary tmpdir filename member = filename ++ [47%N] ++ member.
+Proof.
+  intros. unfold printed_member, unpacked_member.
+  destruct (fake_path_spec N N.eqb N.eqb_eq (real_root binary tmpdir) (filename ++ [47%N]) (real_root binary tmpdir ++ member)) as [H _].
+  rewrite (H member eq_refl). rewrite <- app_assoc. reflexivity.
+Qed.
